@@ -420,6 +420,13 @@ class MemorizedFunc(Logger):
         cache_validation_callback=None,
     ):
         Logger.__init__(self)
+        # Copy the metadata of the function (name, docstring, attributes...)
+        # first: the attributes of the function must not override the state
+        # of the wrapper set below (e.g. `func.ignore`, `func.func`).
+        try:
+            functools.update_wrapper(self, func)
+        except Exception:
+            pass  # Objects like ufunc don't like that
         self.mmap_mode = mmap_mode
         self.compress = compress
         self.func = func
@@ -440,10 +447,6 @@ class MemorizedFunc(Logger):
             self.store_backend.store_cached_func_code([self.func_id])
 
         self.timestamp = timestamp if timestamp is not None else time.time()
-        try:
-            functools.update_wrapper(self, func)
-        except Exception:
-            pass  # Objects like ufunc don't like that
         if inspect.isfunction(func):
             doc = pydoc.TextDoc().document(func)
             # Remove blank line
